@@ -103,3 +103,35 @@ Definition todo_of (K : skind) (st : store) (ids : list str) (inputs : list valu
 
 Definition records_of (chain : list step) (todo : list (str * value)) : list rec :=
   map (fun p => (fst p, call chain (snd p))) todo.
+
+(* ------------------------------------------------------------------ the repaired code *)
+
+(** writing records through the repaired writer/store operations *)
+Definition put_r (K : skind) (st : store) (r : rec) : result store :=
+  writer_main_v repaired K st (snd r) (Some (fst r)).
+
+Fixpoint puts_r (K : skind) (st : store) (rs : list rec) : result store :=
+  match rs with
+  | [] => Ok st
+  | r :: rs' => match put_r K st r with Ok st' => puts_r K st' rs' | Exc e => Exc e end
+  end.
+
+(** the not-completed part of the dictionary for the repaired store: an older
+    record is retired when its input now completed, REPLACED (not listed a
+    second time) when its input failed again, and a failed input without an
+    older record is added *)
+Definition failed_named (K : skind) (n : str) (r : rec) : bool :=
+  failed_rec r && str_eqb (k_ncname K (fst r)) n.
+
+Definition refreshed (K : skind) (rs : list rec) (e : str * value) : str * value :=
+  match find (failed_named K (fst e)) rs with
+  | Some r => (fst e, snd r)
+  | None => e
+  end.
+
+Definition newly_failed (K : skind) (st : store) (r : rec) : bool :=
+  failed_rec r && negb (mem_str (k_ncname K (fst r)) (map fst (st_nc st))).
+
+Definition final_nc_r (K : skind) (st : store) (rs : list rec) : list (str * value) :=
+  map (refreshed K rs) (filter (fun e => negb (retired_by K rs e)) (st_nc st))
+  ++ map (fun r => (k_ncname K (fst r), snd r)) (filter (newly_failed K st) rs).
